@@ -225,7 +225,9 @@ def to_pdata(v):
             raise ValueError('field shape without a PlutusData field type')
         flds.append((f'f{i}', t)); vals.append(x)
     _CLS[0] += 1
-    cls = dataclasses.make_dataclass(f'Gen{_CLS[0]}', flds, bases=(PlutusData,), namespace={'CONSTR_ID': cid})
+    # every generated class has the SAME name (v1 / v2 of one contract both define `Listing`): two datums that differ in the
+    # constructor id only print alike
+    cls = dataclasses.make_dataclass('Listing', flds, bases=(PlutusData,), namespace={'CONSTR_ID': cid})
     return cls(*vals)
 
 
@@ -395,6 +397,27 @@ def handler(case, payload):
                     r.ex_units.mem if r.ex_units is not None else -1,
                     r.ex_units.steps if r.ex_units is not None else -1] for r in b._redeemer_list],
                evals=ctx.evals, n_inputs=len(tx.transaction_body.inputs), eval_ptrs=ctx.ptrs)
+    p2 = case.get('phase2')
+    if p2:
+        # second build of the SAME builder after more was asked of it through the public attributes
+        try:
+            ma = MultiAsset()
+            for p, names in p2['mint']:
+                a = Asset()
+                for n, q in names:
+                    a[AssetName(bytes.fromhex(n))] = q
+                ma[ScriptHash(bytes.fromhex(p))] = a
+            b.mint = ma
+            b.native_scripts = [scripts[s] for s in p2['native']]
+            random.seed(case.get('seed', 0) + 1)
+            tx2 = b.build_and_sign([], change_address=change, auto_validity_start_offset=B['off_start'],
+                                   auto_ttl_offset=B['off_ttl'])
+            res.update(tx2=tx2.to_cbor().hex(), wits_nodup2=b.build_witness_set(False).to_cbor().hex(),
+                       rl2=[[rids.get(id(r), -1), r.tag.value if r.tag is not None else -1, r.index,
+                             r.ex_units.mem if r.ex_units is not None else -1,
+                             r.ex_units.steps if r.ex_units is not None else -1] for r in b._redeemer_list])
+        except Exception as e:
+            res.update(tx2=None, err2=err_kind(e), msg2=str(e)[:160])
     return res
 
 
